@@ -35,7 +35,7 @@ From Coq Require Import Permutation.
 From Eino Require Import Base.Util Model.Options Model.OptionsSpec Model.OptionsResume Model.OptionsAll
   Proofs.Options Proofs.OptionsResume Proofs.OptionsFired Proofs.OptionsPerm Proofs.OptionsClauses
   Proofs.OptionsAll.
-From Eino Require Base.GoSlice Proofs.CallbacksSlice Model.OptionsSlice Proofs.OptionsSlice.
+From Eino Require Base.GoSlice Proofs.CallbacksSlice Model.OptionsSlice Proofs.OptionsSlice Proofs.OptionsSliceScript.
 Local Open Scope N_scope.
 
 (* ---- delivered_iff_addressed ------------------------------------------------------- *)
@@ -296,6 +296,35 @@ Theorem designate_copies :
     (forall t, GoSlice.wf h t -> GoSlice.read (fst r) t = GoSlice.read h t /\ GoSlice.wf (fst r) t).
 Proof. exact OptionsSlice.designate_go_spec. Qed.
 Print Assumptions designate_copies.
+
+(* ... and so does a whole script of constructors (Model/OptionsSlice.v build_go: WithXxxOption =
+   make([]*NodePath, 0), WithCallbacks = nil paths, DesignateNodeWithPath = designate_go on the
+   parent's header; dec: the path a path pointer points to): for every script and every growth
+   policy, EVERY option built along the way — bases, derivatives, siblings, options of an earlier
+   call that a later call derives from — reads in the final heap as the value that the
+   value-level script [build] (which the correspondence check evaluates) computes for it. *)
+Theorem options_are_values_for_every_script :
+  forall (dec : GoSlice.elem -> path) pol script,
+    match OptionsSlice.build_go pol [] script [] with
+    | Some (h', env') =>
+        exists envv', build (map (OptionsSliceScript.bop_of dec) script) [] = Ok envv' /\
+                      Forall2 (OptionsSliceScript.reads_as dec h') env' envv'
+    | None => build (map (OptionsSliceScript.bop_of dec) script) [] = Err E_SCRIPT
+    end.
+Proof. exact OptionsSliceScript.build_go_script_refines. Qed.
+Print Assumptions options_are_values_for_every_script.
+
+(* the derivation tree of designate_v0_refuted, through the repaired constructor with Go's
+   doubling growth: the two siblings keep their own last path *)
+Example script_example :
+  match OptionsSlice.build_go GoSlice.pol_double []
+          [OptionsSlice.SItems [(6, 1)]; OptionsSlice.SDesignate 0 [1]; OptionsSlice.SDesignate 1 [2];
+           OptionsSlice.SDesignate 2 [3]; OptionsSlice.SDesignate 3 [4]; OptionsSlice.SDesignate 3 [5]] [] with
+  | Some (h, env) => map (fun o => GoSlice.read h (OptionsSlice.s_paths o)) env =
+                     [[]; [1]; [1; 2]; [1; 2; 3]; [1; 2; 3; 4]; [1; 2; 3; 5]]
+  | None => False
+  end.
+Proof. vm_compute. reflexivity. Qed.
 
 (* the code before the repair (o.paths = append(o.paths, path...)) wrote into the spare capacity
    of the base's array: building a second derivative changed the first *)
